@@ -193,7 +193,7 @@ def shard_mask(arg):
     st = Stats()
     c = 0
     for spec in specs:
-        for n in range(len(spec) + 3):
+        for n in list(range(len(spec) + 3)) + [-1]:
             for names in mask_name_tuples(spec):
                 for fl in itertools.product((False, True), repeat=4):
                     c += 1
@@ -324,7 +324,7 @@ def st_case():
         inner = s0 if op == 'mask' else draw(spec)
         cand = [p.name for p in inner] + ['q', 'zz']
         names = draw(st.lists(st.sampled_from(cand), max_size=3))
-        n = draw(st.integers(0, len(inner) + 2))
+        n = draw(st.integers(-1, len(inner) + 2))
         if op == 'mask':
             fl = {k: draw(st.booleans()) for k in MASK_FLAGS}
             return (op, (s0,), {'n': n, 'names': names, 'flags': fl}, down)
@@ -345,12 +345,39 @@ def shard_hyp(arg):
     return st
 
 
+def shard_degenerate(arg):
+    """No signature at all: merge() and embed() are defined for one or more; an empty argument list is refused with ValueError."""
+    from sigtools import signatures
+    st = Stats()
+    a = realfn.sig_of((Par('a', POK), Par('b', POK), Par('args', VP)), 'f0')
+    b = realfn.sig_of((Par('x', POK), Par('args', VP), Par('kwargs', VK)), 'f1')
+    for label, call in (('merge()', lambda: signatures.merge()), ('embed()', lambda: signatures.embed()),
+                        ('embed(use_varargs=False)', lambda: signatures.embed(use_varargs=False)),
+                        # a negative number of positional arguments cannot be passed to anything
+                        ('mask((a, b, *args), -1)', lambda: signatures.mask(a, -1)),
+                        ('mask((a, b, *args), -2, hide_args=True)', lambda: signatures.mask(a, -2, hide_args=True)),
+                        ('forwards((x, *args, **kwargs), (a, b, *args), -1)', lambda: signatures.forwards(b, a, -1))):
+        st.case()
+        st.cls('degenerate/no-signature')
+        try:
+            r = call()
+            out = 'returned %r' % (r,)
+        except ValueError:
+            st.nontriv(('degenerate', label))
+            continue
+        except Exception as e:
+            out = 'raised %s: %s' % (type(e).__name__, e)
+        st.fail('C15/no-signature/%s' % label.split('(')[0], {'op': 'degenerate', 'call': label}, '%s %s; expected ValueError' % (label, out))
+    return st
+
+
 def run(ctx):
     _init()
     total = Stats()
     ds = 4
     # (the quick tier samples the pair spaces evenly rather than taking every partner of a few left-hand sides)
     idx = ctx.stride(range(len(_U2) ** 2), ctx.pick(0.04, 1.0))
+    total.merge(ctx.pmap(shard_degenerate, [0]))
     total.merge(ctx.pmap(shard_merge, [(idx[i::64], ds) for i in range(64) if idx[i::64]]))
     idx = ctx.stride(range(len(_OUT) * len(_INN)), ctx.pick(0.05, 1.0))
     total.merge(ctx.pmap(shard_embed, [(idx[i::64], ds) for i in range(64) if idx[i::64]]))
@@ -374,6 +401,9 @@ def run(ctx):
 
 
 def replay(case, stats):
+    if case.get('op') == 'degenerate':
+        stats.merge(shard_degenerate(0))
+        return
     specs = tuple(tuple(Par(*p) for p in s) for s in case['specs'])
     if case['op'] == 'fallback':
         check_fallback(specs[0], specs[1], case['args']['n'], tuple(case['args']['names']), stats)
